@@ -9,6 +9,17 @@ pub mod triaxial;
 
 use crate::prelude::*;
 
+#[cfg(feature = "verif")]
+pub(crate) fn verif_ellipsoid_table() -> Vec<(
+    &'static str,
+    &'static str,
+    &'static str,
+    &'static str,
+    &'static str,
+)> {
+    constants::ELLIPSOID_LIST.to_vec()
+}
+
 // Blanket implementations for all the Ellipsoidal traits
 impl<T> Meridians for T where T: EllipsoidBase + ?Sized {}
 impl<T> Latitudes for T where T: EllipsoidBase + ?Sized {}
